@@ -1,7 +1,7 @@
 PROP = dict(
-    drivers=['Rip', 'Bgi', 'Igs', 'Ripc', 'Igsx'],
-        gens=['rip', 'bgi', 'igs', 'bgix', 'riprun', 'igspaint'],
-        lake=['IcyVerif.Props.C20', 'IcyVerif.Props.C20Canvas', 'IcyVerif.Props.C20Igs'],
+    drivers=['Rip', 'Bgi', 'Igs', 'Ripc', 'Igsx', 'Ript'],
+        gens=['rip', 'bgi', 'igs', 'bgix', 'riprun', 'igspaint', 'riptext'],
+        lake=['IcyVerif.Props.C20', 'IcyVerif.Props.C20Canvas', 'IcyVerif.Props.C20Igs', 'IcyVerif.Props.C20IgsCost', 'IcyVerif.Props.C20Text'],
         ns='IcyVerif.C20',
         theorems=['rip_table_wellformed', 'base36_bounded', 'rip_step_total', 'rip_lex_total',
                   'put_pixel_in_bounds', 'put_pixel_keeps_canvas', 'bar_rect_cost', 'bar_rect_cost_in_window',
@@ -16,7 +16,11 @@ PROP = dict(
                   'igs_arg_table', 'igs_arg_count_validated', 'igs_poly_validation', 'igs_exec_keeps_invariant',
                   'igs_picture_complete', 'igs_stream_picture_complete', 'igs_set_pixel_total', 'igs_fill_rect_total',
                   'picture_fold_eq', 'igs_draw_line_terminates_partial', 'igs_poly_lines_total',
-                  'igs_flood_fill_terminates', 'igs_blit_screen_total'],
+                  'igs_flood_fill_terminates', 'igs_blit_screen_total',
+                  # cost of the IGS block operations (Props/C20IgsCost.lean)
+                  'igs_blit_screen_cost', 'igs_grab_screen_cost', 'igs_fill_rect_cost',
+                  # RIP text path (Props/C20Text.lean)
+                  'rip_text_size_in_tables', 'rip_text_total'],
         harness='c20',
         harness_timeout=7200,
         design='DESIGN.md §4 C20',
@@ -29,9 +33,16 @@ PROP = dict(
                   'translator) on top of the lexer model; get_picture_data (RIP and IGS); the IGS lexer with loop stepping AND loop '
                   'parameter arithmetic; the integer part of the IGS DrawExecutor (execute_command with the regenerated argument-count '
                   'table and the poly rule, all painting primitives with checked i32/i64 arithmetic, Bresenham termination, flood fill '
-                  'termination, the executor invariant kept by every command).  Differential correspondence of all of it with the '
+                  'termination, the executor invariant kept by every command); the COST of the IGS block operations as functions of the model '
+                  '(every loop of fill_rect and the three blits repeated with round / pixel-access counters, erasure + closed form '
+                  'rows x columns <= width x height proved for fill_rect, blit_screen_to_screen, blit_screen_to_memory); the integer part '
+                  'of the RIP text path (set_text_style with FontType::from / Direction::from / the size clamp, every lookup of '
+                  'SCALE_UP / SCALE_DOWN / FONTS / characters[code]: no index panic for every font number, size and text).  '
+                  'Differential correspondence of all of it with the '
                   'real crate: per-character lexer digests, canvas hash + state after BGI API sequences incl. flood-fill scenes, '
-                  'whole RIP / IGS streams with canvas hash, get_picture_data length + hash and outcome letters (kinds ripc / igsx).  '
+                  'whole RIP / IGS streams with canvas hash, get_picture_data length + hash and outcome letters (kinds ripc / igsx), pixel accesses '
+                  'per stream / per command against the hook counter VERIF_PIXEL_OPS (kind igsc), the text style after |Y and the '
+                  'panic-freedom of the text commands in that style (kind ript).  '
                   'Everything else (arcs, ellipses, Beziers of RIP in f64, RIP filled polygon, stroked fonts, buttons, icons, IGS text '
                   'output, ANSI fallback) is exploration-supported, no theorem: the same streams are fed to the real code char by char '
                   'in a worker process with the oracle ok/err/panic:<site>, per-character time limit, hang watchdog, picture size == '
@@ -46,7 +57,13 @@ PROP = dict(
              '/ polluted parameter lists, palettes of 0..=16 entries, colour numbers beyond the palette, polygon lists around the '
              'announced count); igsx streams (every execute_command arm, parameter lists of every length around the declared one, pen '
              '/ colour / pattern / line-type numbers at and beyond their tables, poly lists around points*2+1 with the border on, '
-             'blits inside and outside screen and saved block, resolution changes, loops with x / y / +n / -n / !n parameters).  '
+             'blits inside and outside screen and saved block, resolution changes, loops with x / y / +n / -n / !n parameters); IGS '
+             'two-command sequences over the lexer state graph (every prefix of 10 first commands + 12 ways of abandoning it, one '
+             'representative per distinct abstract lexer state in quick, x every command kind incl. 4 loops, chained and on a new line); '
+             'IGS block commands (GrabScreen modes 0..3, FilledRectangle, Box) x every pair of extents from {1, 320, 3000, 20000} '
+             '(thorough: 8 values up to 99999) x 4 source / destination spots x 3 preludes (kinds igsc + igsx; oracle: pixel '
+             'accesses of one command <= 2 x width x height); RIP |Y with every font number 0..=12, 35, 255, 256, 257, 266, 267, 1295 x '
+             'every size 0..=36 and ZZ x directions, followed by |@, |T and a button label (kind ript).  '
              'distinct_nontrivial = distinct (final digest, digest hash) / (observation) lines.',
         modelled='RIP: Parser::print_char state machine, parse_parameter, start_command/push_command, parse_base_36, generic '
                  'Command::parse and to_rip_string over the regenerated table, rip_counter, suspend_text; Command::run of ViewPort, '
@@ -60,15 +77,20 @@ PROP = dict(
                  'repaired, parameter arithmetic); DrawExecutor::execute_command (all 31 arms), set_pixel, get_pixel, fill_pixel, '
                  'draw_line, fill_rect, draw_poly, draw_polyline, fill_poly, round_rect, draw_poly_maker, fill_ellipse, draw_ellipse, '
                  'draw_circle, flood_fill, blit_screen_to_screen / _to_memory / memory_to_screen, set_resolution, clear, '
-                 'get_picture_data (all as repaired)',
+                 'get_picture_data (all as repaired); cost (loop rounds, pixel accesses) of fill_rect, blit_screen_to_screen, '
+                 'blit_screen_to_memory, blit_memory_to_screen and of the commands made of them (FilledRectangle, Box without border, '
+                 'GrabScreen); RIP text path, integer part: FontStyle::run / Bgi::set_text_style, FontType::from, Direction::from, '
+                 'FontType::get_font, the SCALE_UP / SCALE_DOWN lookups and divisions of font.rs / character.rs, the characters[code] guards',
         not_modelled='exploration-supported, no theorem: RIP circle, ellipse, arc, pie slice, sector (f64 trigonometry), Bezier, '
                      'filled polygon (integer scan conversion: not done), draw_line (the Bresenham used by arcs and buttons), '
-                     'out_text / stroked fonts (font.rs, character.rs), get/put image, copy region, buttons, mouse fields, icons and '
+                     'what the strokes of out_text / stroked fonts draw and the f32 glyph widths (the table lookups are modelled), get/put image, copy region, buttons, mouse fields, icons and '
                      'file queries (file I/O; the harness uses an empty directory), text window, ResetWindows; IGS write_text (f32 '
                      'glyph scaling) and the effects of commands on the text buffer / caret; the ANSI fallback parser (C01); '
                      'characters above U+00FF; wall-clock and memory.  No coordinate-independent cost bound exists for IGS draw_line '
                      'and the ellipse loops (the code walks unclipped lines: linear in the coordinate values), see '
-                     'igs_draw_line_terminates_partial.',
+                     'igs_draw_line_terminates_partial.  The cost function of blit_memory_to_screen is in the model and tied by the igsc '
+                     'correspondence, but its bound (rounds <= (width + 1) x (height + 1) for a destination on the screen) has no theorem yet; '
+                     'Box with the border on, rounded rectangles, polygons and flood fill have no cost function (igsc reports nocount).',
         assumptions=['terminal_state.cleared_screen is never set by the engine (the RIP model takes it as false)',
                      'hypotheses StreamState / DrawState / ParamsOk of the BGI and RIP command theorems (viewport fields two base-36 '
                      'digits, 8-row user pattern, 13 fill styles, 640x350 screen) are checked on the real state after every rip / ripc stream '
@@ -77,5 +99,5 @@ PROP = dict(
                      'lexer model, supplied by the harness and universally quantified in the theorems',
                      'streams are fed as chars U+0000..U+00FF (one per byte), as the crate\'s own tests do'],
         trusted_extra=['hook commit (cfg icy_engine_verif): Parser::verif_digest (rip, igs), Bgi::verif_state expose private '
-                       'lexer/viewport state for observation only'],
+                       'lexer/viewport state for observation only', 'hook commit (cfg icy_engine_verif): igs VERIF_PIXEL_OPS counts set_pixel / get_pixel calls'],
     )
